@@ -135,9 +135,9 @@ func Build(origin string, d1, d2 any) *Subject {
 		return &Subject{C: container(d1).Seal()}
 	case "overlay":
 		o := dom.NewOverlayDocument()
-		o.Add("base", container(d1))
-		o.Add("top", container(d2))
-		o.Put("top", "put.here", dom.LeafNode("v"))
+		o.Add("zbase", container(d1))
+		o.Add("atop", container(d2))
+		o.Put("atop", "put.here", dom.LeafNode("v"))
 		return &Subject{O: o}
 	}
 	return &Subject{C: container(d1)}
